@@ -336,6 +336,11 @@ def _strategies():
     def tsets(draw, depth, nodes):
         shape = draw(st.sampled_from(["plain", "plain", "modules", "modules", "inherit", "inherit"]))
         prog = draw(G.programs(depth, nodes, errors=False))
+        # a few plain outputs of pool names / constants so that most templates have several pieces, some of them empty
+        for _ in range(draw(st.integers(0, 6))):
+            e = draw(st.sampled_from([["name", "a"], ["name", "b"], ["name", "c"], ["name", "d"], ["str", ""], ["str", "q"],
+                                      ["filt", "join", ["name", "s"], [["str", ""]]], ["int", 7]]))
+            prog.insert(draw(st.integers(0, len(prog))), ["out", e])
         d = draw(data())
         encs = draw(st.lists(st.sampled_from(SAFE_CODECS), min_size=2, max_size=2))
         templates = {}
@@ -367,7 +372,9 @@ def _strategies():
                 for n in names + ["b4"]:
                     if draw(st.integers(0, 2)):
                         body = G.print_program(draw(small))
-                        sup = draw(st.sampled_from(["", "{{ super() }}", "{{ super() }}{{ super() }}", "{{ self.b4() }}"]))
+                        # self.b4() only from b1/b2 (b3 contains b4 and calls b1): no cycle between blocks
+                        sups = ["", "{{ super() }}", "{{ super() }}{{ super() }}"] + (["{{ self.b4() }}"] if n in ("b1", "b2") else [])
+                        sup = draw(st.sampled_from(sups))
                         if n == "b2":
                             parts.append("{% block b2 scoped %}" + sup + body + "{% endblock %}")
                         else:
@@ -386,7 +393,7 @@ def shards(tier):
 
 def run_shard(spec, ctx):
     tsets = _strategies()
-    n = ctx.pick(700, 9000)
+    n = ctx.pick(420, 5600)
     rec = core.Rec()
     core.hyp_shard(tsets(3, 14), check_case, ctx, n // 2, rec=rec, tag="small")
     if rec.violations:
